@@ -377,6 +377,50 @@ func properties() map[string]*propDef {
 		Rule:           "routing family: same symbolic request three times on one container (second time after scribbling on the first handler's parameters, third time with trace on); CORS/OPTIONS family: symbolic first request, then a symbolic second request compared with a fresh twin; attribute family: n identical requests through an attribute-setting filter; a frame monitor runs around the first dispatch of each",
 		RequiredCovers: []string{"invoked", "not-invoked", "preflight-granted", "served"},
 	}
+	m["C13"] = &propDef{
+		ID: "C13",
+		Items: func(tier string, seed int) []item {
+			var out []item
+			threads := []int{2}
+			if tier == "thorough" {
+				threads = []int{2, 3}
+			}
+			for capacity := 0; capacity <= 2; capacity++ {
+				for fill := 0; fill <= capacity; fill++ {
+					for _, nt := range threads {
+						for kind := 0; kind < 3; kind++ {
+							out = append(out, item{Harness: "H_C13_conc", Cfg: []int{capacity, fill, nt, kind}, Label: "cache capacity, initial fill, threads, kind (gzip writer, zlib writer, gzip reader)"})
+						}
+					}
+				}
+			}
+			for enc := 0; enc < 3; enc++ {
+				for prov := 0; prov < 3; prov++ {
+					out = append(out, item{Harness: "H_C13_read", Cfg: []int{enc, prov}, Label: "request Content-Encoding (none, gzip, deflate), provider"})
+				}
+			}
+			// the ledger around encoded responses: every entry point and outcome kind, all providers
+			for entry := 0; entry < 4; entry++ {
+				for kind := 0; kind < 4; kind++ {
+					if entry >= 2 && kind == 1 {
+						continue
+					}
+					for prov := 0; prov < 3; prov++ {
+						out = append(out, item{Harness: "H_C07", Cfg: []int{entry, 1, 0, kind, prov}, Label: "C07 harness with the compressor ledger (entry, container encoding on, route unset, outcome kind, provider)"})
+					}
+				}
+			}
+			return out
+		},
+		Bounds: map[string]interface{}{"threads": "2 (thorough 3), each Acquire then Release once", "cache_capacity": "0..2", "initial_fill": "0..capacity",
+			"sequential": "ledger provider around the real providers on every C07 outcome kind and on two consecutive ReadEntity calls"},
+		Assumptions: append([]string{"event-order encoding: each thread body runs alone in recording mode; channel operations get symbolic results that the schedule formula constrains (len = initial + sends before - receives before; send enabled iff below capacity); timestamps are 8-bit vectors",
+			"the Go memory model is not modelled: channel operations are atomic events", "sync.Pool is a multiset stub (its internals are trusted); SyncPoolCompessors is only covered sequentially",
+			"'never hands out an object still in use' follows structurally (an object enters the channel only in Release*, each acquired object is released once - checked by the ledger); it is not a separate schedule query",
+			"a blocked-forever schedule is confirmed natively by running the threads up to 400 times with a watchdog"}, commonAssumptions...),
+		Rule:           "bounded cache: capacity x initial fill x thread count x object kind, all schedules decided by one stuck-state query per combination of thread paths; sequential: ledger over encoded responses and request decoding for all three providers",
+		RequiredCovers: []string{"threads-analysed", "ran", "read", "encoded"},
+	}
 	m["C15"] = &propDef{
 		ID: "C15",
 		Items: func(tier string, seed int) []item {
